@@ -116,7 +116,7 @@ var (
 // plain well-formed value ("good") and entry 1 the canonical edge value.
 func allMenus() map[string][]snip {
 	m := map[string][]snip{}
-	m["int"] = []snip{mk("1", eI(1)), mk("0", eI(0)), mk("-2", eI(-2)), mk("3", eI(3)), mkT("24", eI(24))}
+	m["int"] = []snip{mk("1", eI(1)), mk("0", eI(0)), mk("-2", eI(-2)), mk("3", eI(3)), mkT("20", eI(20))}
 	m["float"] = []snip{mk("500.0", eF(500)), mk("0.0", eF(0)), mk("-1.0", eF(-1)), mk("1.5", eF(1.5)),
 		mkT("NaN", eF(math.NaN())), mkT("+Inf", eF(math.Inf(1))), mkT("1e9", eF(1e9))}
 	m["string"] = []snip{mk(`"name"`, eS("name")), mk(`""`, eS("")), mk(`"walk"`, eS("walk")), mk(`"487604c"`, eS("487604c")),
